@@ -24,14 +24,15 @@ func init() {
 		LevelText: "seeded search over signature batches: really signed transactions of one block and verification-ticket sets of one block hash, seeded sizes (1..20) and validation batch sizes, " +
 			"a seeded subset corrupted in transit (bit flip, signature over another message, signature of another key, swapped signatures, and coordinated corruptions sig_i+d, sig_j-d / three-way sums to zero as BLS group elements, " +
 			"inside one batch and across batches, alone or next to an independent corruption); fed to the shipped BLS0ChainAggregateSignatureScheme (Aggregate/Verify), miner.ValidateTransactions and chain.VerifyTickets; " +
-			"oracle: accepted exactly when every individual Verify (shipped scheme, computed by the oracle) is true. A clean batch is evidence, not proof",
+			"plus histories on long-lived scheme objects (one per client key for the run, the node's client cache, the miner nodes of the pool): the same set, other batch sizes, overlapping sets with the same first signature (a competing block / a smaller ticket set) and the members one by one are checked 2..6 times in seeded order through the same objects - the verdict must be the same every time; " +
+			"oracle: accepted exactly when every individual Verify (shipped scheme on a fresh object, computed by the oracle) is true. A clean batch is evidence, not proof",
 		LevelNote: "input-class property hosted in the simulation: schedules contribute nothing; the simulator contributes signed messages and the byzantine link. " +
 			"ed25519 runs exercise only the one-by-one path of ValidateTransactions (no aggregate scheme exists for it; chain.VerifyTickets panics by design for it and is not called)",
 		Technique: "deterministic simulation: seeded byzantine corruption of signature sets incl. algebraically cancelling ones; receiver = real aggregate scheme, miner.ValidateTransactions, chain.VerifyTickets",
 		DesignRef: "6/C32, 8", Regime: "single-threaded event loop (inner worker goroutines of ValidateTransactions / VerifyTickets run to completion inside one step)",
 		Components: sim.Components{
 			Real: []string{"core/encryption (BLS0ChainAggregateSignatureScheme, BLS0ChainScheme, ED25519Scheme)", "miner.Chain.ValidateTransactions", "chaincore/chain.Chain.VerifyTickets", "chaincore/transaction", "chaincore/block", "chaincore/node (Pool)", "herumi bls (group arithmetic used by the byzantine side)"},
-			Sim:  []string{"clients / miners with seeded keys", "corrupting link", "individual-verification oracle"},
+			Sim:  []string{"clients / miners with seeded keys", "corrupting link", "re-verification schedule on long-lived scheme objects", "individual-verification oracle"},
 			Stub: []string{"datastore.Store (no-op)"},
 		},
 		Assumptions: []string{
@@ -67,6 +68,28 @@ func genC32(seed uint64, tier string) *sim.Plan {
 			int64(tam.Intn(1 << 16)), // 6 delta / bit selector
 			int64(r.Intn(1000)),      // 7 payload selector
 		}})
+	}
+	// histories on long-lived scheme objects (the node hands out one scheme object per client / per miner node):
+	// the same set, other batch sizes, overlapping sets (same first signature) and the members one by one are
+	// checked again and again through the same objects.  Drawn after the steps above so those keep their arguments.
+	for i, k := 0, r.Range(1, 3); i < k; i++ {
+		n := r.Range(1, 20)
+		if r.Intn(5) < 3 {
+			n = r.Range(2, 6)
+		}
+		in := []int64{
+			int64(n), int64([]int{1, 2, 3, 5, 8, 64, 0}[r.Intn(7)]),
+			int64(tam.Pick([]int{8, 1, 1, 1, 1, 1, 1, 1, 1})),
+			int64(tam.Intn(1 << 16)), int64(tam.Intn(1 << 16)), int64(tam.Intn(1 << 16)), int64(tam.Intn(1 << 16)),
+			int64(r.Intn(1000)),
+			int64(r.Intn(2)), // 8 flavour: transactions / tickets
+		}
+		for a, na := 0, r.Range(2, 6); a < na; a++ {
+			in = append(in, int64(r.Intn(7)*1000+r.Intn(1000))) // 9.. action*1000 + selector
+		}
+		st := sim.Step{Op: "history", A: r.Intn(8), I: in}
+		at := r.Intn(len(p.Steps) + 1)
+		p.Steps = append(p.Steps[:at], append([]sim.Step{st}, p.Steps[at:]...)...)
 	}
 	return p
 }
@@ -230,21 +253,59 @@ func execC32(env *sim.Env, p *sim.Plan) *sim.Result {
 		}
 		return bad == 0, bad
 	}
+	// repeat: "" for a first check with fresh objects; "/repeat" when the check runs on long-lived scheme objects
+	// that have verified (parts of) the same set before.  The verdict must be the same every time.
+	repeat := ""
 	judge := func(surface, class, kind string, n, batch, bad int, accepted bool, rerr error) {
-		tr.Event("%s kind=%s n=%d batch=%d scheme=%s invalid=%d -> accepted=%v (%s)", surface, kind, n, batch, scheme, bad, accepted, errCode(rerr))
-		tr.Outcome(fmt.Sprintf("%s/%s/%v", surface, class, accepted))
+		tr.Event("%s%s kind=%s n=%d batch=%d scheme=%s invalid=%d -> accepted=%v (%s)", surface, repeat, kind, n, batch, scheme, bad, accepted, errCode(rerr))
+		tr.Outcome(fmt.Sprintf("%s%s/%s/%v", surface, repeat, class, accepted))
 		allValid := bad == 0
+		hist := ""
+		if repeat != "" {
+			hist = " (checked through long-lived scheme objects that verified members of this set before)"
+		}
 		switch {
 		case accepted && !allValid && class == "cancelling":
 			viol("batch-vs-individual", surface+"/cancelling/accepted",
 				fmt.Sprintf("%s accepted a set of %d signatures (batch size %d) of which %d fail individual Verify: coordinated corruption %s leaves the sum of the signatures unchanged", surface, n, batch, bad, kind))
 		case accepted && !allValid:
-			viol("batch-vs-individual", surface+"/"+kind+"/accepted",
-				fmt.Sprintf("%s accepted a set of %d signatures (batch size %d) of which %d fail individual Verify (corruption %s)", surface, n, batch, bad, kind))
+			viol("batch-vs-individual", surface+"/"+kind+"/accepted"+repeat,
+				fmt.Sprintf("%s accepted a set of %d signatures (batch size %d) of which %d fail individual Verify (corruption %s)%s", surface, n, batch, bad, kind, hist))
 		case !accepted && allValid:
-			viol("batch-vs-individual", surface+"/valid-rejected",
-				fmt.Sprintf("%s rejected a set of %d signatures (batch size %d) that all verify individually: %v", surface, n, batch, rerr))
+			viol("batch-vs-individual", surface+"/valid-rejected"+repeat,
+				fmt.Sprintf("%s rejected a set of %d signatures (batch size %d) that all verify individually%s: %v", surface, n, batch, hist, rerr))
 		}
+	}
+	// long-lived receiver-side scheme objects, one per public key for the whole run (what the client cache is to the node)
+	lived := map[string]encryption.SignatureScheme{}
+	livedFor := func(pk string) (encryption.SignatureScheme, error) {
+		if ss, ok := lived[pk]; ok {
+			return ss, nil
+		}
+		ss := encryption.GetSignatureScheme(scheme)
+		if err := ss.SetPublicKey(pk); err != nil {
+			return nil, err
+		}
+		lived[pk] = ss
+		return ss, nil
+	}
+	// one member at a time through `verify` (a long-lived object); must agree with a fresh scheme object every time
+	oneByOne := func(surface string, items []c32Item, verify func(i int) (bool, error)) {
+		for i := range items {
+			_, bad := individually(items[i : i+1])
+			ok, err := verify(i)
+			ok = ok && err == nil
+			tr.Outcome(fmt.Sprintf("%s/%v/%v", surface, bad == 0, ok))
+			switch {
+			case bad == 0 && !ok:
+				tr.Event("%s member %d valid but rejected (%s)", surface, i, errCode(err))
+				viol("individual-repeatable", surface+"/valid-rejected"+repeat, fmt.Sprintf("%s: a signature that verifies with a fresh scheme object is rejected by the long-lived scheme object of the same key after earlier batch checks (member %d of %d): %v", surface, i, len(items), err))
+			case bad != 0 && ok:
+				tr.Event("%s member %d invalid but accepted", surface, i)
+				viol("individual-repeatable", surface+"/invalid-accepted"+repeat, fmt.Sprintf("%s: a signature that fails with a fresh scheme object is accepted by the long-lived scheme object of the same key (member %d of %d)", surface, i, len(items)))
+			}
+		}
+		tr.Event("%s%s n=%d done", surface, repeat, len(items))
 	}
 	for _, st := range p.Steps {
 		n := int(st.Int(0, 1))
@@ -350,6 +411,176 @@ func execC32(env *sim.Env, p *sim.Plan) *sim.Result {
 			}
 			verr := rc.c.VerifyTickets(ctx, bh, bvts, round)
 			judge("VerifyTickets", class, kind, n, n, bad, verr == nil, verr)
+		case "history":
+			tickets := st.Int(8, 0) == 1 && isBLS
+			if tickets && n > nm {
+				n = nm
+			}
+			if batch <= 0 || tickets {
+				batch = n
+			}
+			rc := newReceiverFor(scheme, batch)
+			items := make([]c32Item, n)
+			var txns []*transaction.Transaction
+			var signer func(i int) encryption.SignatureScheme
+			var other func(i int) encryption.SignatureScheme
+			bt := now + common.Timestamp(st.Int(7, 0)%600)
+			bh := encryption.Hash(fmt.Sprintf("history block %d of run %d", st.Int(7, 0), p.Seed))
+			round := 10 + st.Int(7, 0)%50
+			if tickets {
+				mb := block.NewMagicBlock()
+				mb.Miners = pool
+				mb.Sharders = node.NewPool(node.NodeTypeSharder)
+				rc.c.SetMagicBlock(mb)
+				signer = func(i int) encryption.SignatureScheme { return miners[(i+st.A)%nm].ss }
+				other = func(i int) encryption.SignatureScheme { return miners[(i+st.A+1)%nm].ss }
+				for i := range items {
+					s, _ := signer(i).Sign(bh)
+					items[i] = c32Item{pk: signer(i).GetPublicKey(), hash: bh, sig: s}
+				}
+			} else {
+				txns = make([]*transaction.Transaction, n)
+				signer = func(i int) encryption.SignatureScheme { return cls[(i+st.A)%nc].ss }
+				other = func(i int) encryption.SignatureScheme { return cls[(i+st.A+1)%nc].ss }
+				for i := range txns {
+					cl := cls[(i+st.A)%nc]
+					txns[i] = buildTxn(cl, cls[(i+st.A+1)%nc].id, (i+int(st.Int(7, 0)))%c30Shapes, st.Int(7, 0)*32+int64(i)+1<<20, bt-common.Timestamp(i%4), true)
+					items[i] = c32Item{pk: cl.pk, hash: txns[i].Hash, sig: txns[i].Signature}
+				}
+			}
+			honest := append([]c32Item(nil), items...)
+			class, fired := c32Corrupt(items, kind, st, batch,
+				func(i int, h string) string { s, _ := signer(i).Sign(h); return s },
+				func(i int) string { s, _ := other(i).Sign(items[i].hash); return s },
+				delta, isBLS)
+			if fired {
+				tr.Fault("history_corrupt_" + kind)
+			} else {
+				kind, class = "none", ""
+			}
+			// class of the first m members on their own: a part of a coordinated corruption does not cancel, and the
+			// cancelling part of a mixed corruption does (decided in the group: same sum as the honest signatures)
+			classOf := func(m int) string {
+				if m == n || class == "" || !isBLS {
+					return class
+				}
+				var sumC, sumH bls.G1
+				for i := 0; i < m; i++ {
+					c, err1 := sigToG1(items[i].sig)
+					h, err2 := sigToG1(honest[i].sig)
+					if err1 != nil || err2 != nil {
+						return kind
+					}
+					bls.G1Add(&sumC, &sumC, c)
+					bls.G1Add(&sumH, &sumH, h)
+				}
+				if sumC.IsEqual(&sumH) {
+					return "cancelling"
+				}
+				return kind
+			}
+			for i := range txns {
+				txns[i].Signature = items[i].sig
+			}
+			aggLived := func(sub []c32Item, b int) (bool, error) {
+				agg := encryption.GetAggregateSignatureScheme(encryption.SignatureSchemeBls0chain, len(sub), b)
+				for i, it := range sub {
+					ss, err := livedFor(it.pk)
+					if err != nil {
+						return false, err
+					}
+					if err := agg.Aggregate(ss, i, it.sig, it.hash); err != nil {
+						return false, err
+					}
+				}
+				return agg.Verify()
+			}
+			// the node's own path over the first m members: a (competing) block with these transactions /
+			// a ticket set of the block; schemes come from the client cache / the miner nodes of the pool
+			nodePath := func(m int) (string, error) {
+				if tickets {
+					bvts := make([]*block.VerificationTicket, m)
+					for i := range bvts {
+						bvts[i] = &block.VerificationTicket{VerifierID: miners[(i+st.A)%nm].node.GetKey(), Signature: items[i].sig}
+					}
+					return "VerifyTickets", rc.c.VerifyTickets(ctx, bh, bvts, round)
+				}
+				wire, err := json.Marshal(struct {
+					Txns []*transaction.Transaction `json:"transactions"`
+				}{txns[:m]})
+				if err != nil {
+					panic(err)
+				}
+				b := block.Provider().(*block.Block)
+				if err := json.Unmarshal(wire, b); err != nil {
+					panic(err)
+				}
+				b.CreationDate, b.Round = bt, 1
+				if err := b.ComputeProperties(); err != nil {
+					return "ValidateTransactions", err
+				}
+				return "ValidateTransactions", rc.mc.ValidateTransactions(ctx, b)
+			}
+			repeat = ""
+			for a := 9; a < len(st.I); a++ {
+				act, sel := int(st.I[a]/1000)%7, int(st.I[a]%1000)
+				m := 1 + sel%n // overlapping set: the first m members (same first signature)
+				_, bad := individually(items)
+				_, badM := individually(items[:m])
+				switch act {
+				case 0, 1, 2:
+					if !isBLS {
+						tr.Outcome("skip/history-aggregate-needs-bls")
+						continue
+					}
+					sub, b, sb := items, batch, bad
+					if act == 1 {
+						b = []int{1, 2, 3, n}[sel%4]
+					}
+					if act == 2 {
+						sub, sb = items[:m], badM
+					}
+					if b > len(sub) {
+						b = len(sub)
+					}
+					tr.Fault("history_aggregate")
+					acc, err := aggLived(sub, b)
+					judge("aggregate", classOf(len(sub)), kind, len(sub), b, sb, acc, err)
+				case 3:
+					tr.Fault("history_individual")
+					oneByOne("individual", items, func(i int) (bool, error) {
+						ss, err := livedFor(items[i].pk)
+						if err != nil {
+							return false, err
+						}
+						return ss.Verify(items[i].sig, items[i].hash)
+					})
+				case 4, 6:
+					mm, sb := n, bad
+					if act == 6 {
+						mm, sb = m, badM
+					}
+					tr.Fault("history_node_path")
+					surface, err := nodePath(mm)
+					judge(surface, classOf(mm), kind, mm, batch, sb, err == nil, err)
+				case 5:
+					tr.Fault("history_node_individual")
+					if tickets {
+						oneByOne("node-individual", items, func(i int) (bool, error) {
+							return miners[(i+st.A)%nm].node.Verify(items[i].sig, items[i].hash)
+						})
+					} else {
+						oneByOne("node-individual", items, func(i int) (bool, error) {
+							if err := txns[i].VerifySignature(ctx); err != nil {
+								return false, nil
+							}
+							return true, nil
+						})
+					}
+				}
+				repeat = "/repeat"
+			}
+			repeat = ""
 		default:
 			tr.Outcome("skip/unknown-op")
 		}
